@@ -213,6 +213,10 @@ impl Property for C33 {
             );
         }
         if let Some(e) = &r.exc {
+            if e == "ValueError" && (r.msg.contains("Nat can't be negative") || r.msg.contains("invalid literal for int()")) {
+                // one root cause: the scrutinee is converted to the class of a literal / Nat pattern
+                return Outcome::fail("accepted exhaustive match raises ValueError: the scrutinee is converted to the pattern's class", detail(json!({"scrutinee": kind})));
+            }
             return Outcome::fail(format!("accepted exhaustive match over {kind} raises {e}: {}", vkit::panics::norm_msg(&r.msg)), detail(json!(null)));
         }
         let lines: Vec<String> = r.stdout_str().lines().map(|s| s.to_string()).collect();
